@@ -296,7 +296,7 @@ def check_BF(case):
     psi = call('from_Bflat', lambda: MPS.from_Bflat(sites, flat, SVs, bc=case['bc'], permute=case['permute'], form=form, legL=legL, unit_cell_width=L))
     # from_Bflat canonicalises (and thereby normalises) only if L > 1 and chi > 1; otherwise the tensors are kept as given
     canon = all(f is not None for f in psi.form)
-    if canon != (L > 1 and max(psi.chi) > 1) and form is None:
+    if canon != (L > 1 and max(len(v) for v in virt) > 1) and form is None:
         raise Bad('from_Bflat:forms', 'psi.form = %r with L = %d, chi = %r' % (psi.form, L, psi.chi))
     if infinite:
         inf = D.Infinite(Bs)
@@ -406,6 +406,54 @@ def cases_S(unit):
         yield dict(part='S', site=skey, L=L, pairs=[list(p) for p in pairs], lonely=lonely, lonely_state=('up', 'down')[k % 2], by_index=bool(k % 3 == 0))
 
 
+def check_SI(case):
+    """from_singlets with bc='infinite': pairs may reach into the next unit cell; the state is the product of the
+    singlets (i + n L, j + n L) over all n.  Reference: dense state of all singlets touching a window of 2 unit cells,
+    outside sites traced out."""
+    from tenpy.networks.mps import MPS
+    s = U.site(case['site'])
+    L, W = case['L'], 2
+    up, down = s.state_labels['up'], s.state_labels['down']
+    sing = np.zeros((s.dim, s.dim))
+    sing[up, down], sing[down, up] = np.sqrt(0.5), -np.sqrt(0.5)
+    lone = np.zeros(s.dim)
+    lone[s.state_labels[case['lonely_state']]] = 1.0
+    blocks = []
+    for n in range(-2, W + 2):
+        for i, j in case['pairs']:
+            if any(0 <= x + n * L < W * L for x in (i, j)):
+                blocks.append((sing, (i + n * L, j + n * L)))
+    blocks += [(lone, (i + n * L,)) for n in range(W) for i in case['lonely']]
+    where = sorted(x for _, inds in blocks for x in inds)
+    T = place([(t, tuple(where.index(x) for x in inds)) for t, inds in blocks])[0, ..., 0]
+    inside = [k for k, x in enumerate(where) if 0 <= x < W * L]
+    T = np.moveaxis(T, inside, range(len(inside))).reshape(s.dim ** len(inside), -1)
+    crossing = [sum(1 for n in range(-3, 4) for i, j in case['pairs'] if min(i, j) + n * L < b <= max(i, j) + n * L) for b in range(L)]
+    kw = dict(lonely=case['lonely'], lonely_state=case['lonely_state']) if case['lonely'] else {}
+    psi = call('from_singlets', lambda: MPS.from_singlets(s, L, [tuple(p) for p in case['pairs']], bc='infinite', unit_cell_width=L, **kw))
+    model = H.Model(psi, dict(rho=T @ T.conj().T, schmidt=[np.full(2 ** k, 2.0 ** (-k / 2.0)) for k in crossing]), True)
+    model.norm, model.scale = 1.0, 1.0
+    try:
+        soft = H.observe(psi, model, window=W)
+    except Bad as e:
+        raise Bad('from_singlets:infinite:' + e.key, e.what)
+    if soft:
+        raise soft[0]
+
+
+def cases_SI(unit):
+    _, skey, L, tier = unit
+    k = 0
+    for pairs, lonely in matchings(L):
+        if not pairs or any(i > j for i, j in pairs):
+            continue
+        # every pair (i, j), i < j, may instead join j with site i of the next unit cell, in both orientations
+        for choice in itertools.product(range(4), repeat=len(pairs)):
+            pp = [[(i, j), (j, i), (j, i + L), (i + L, j)][c] for (i, j), c in zip(pairs, choice)]
+            yield dict(part='SI', site=skey, L=L, pairs=[list(p) for p in pp], lonely=lonely, lonely_state=('up', 'down')[k % 2])
+            k += 1
+
+
 def partitions(L, sizes):
     """All ordered-block coverings of range(L): set partitions with block sizes in `sizes`, every order inside a block."""
     out = []
@@ -503,8 +551,8 @@ def cases_PROJ(unit):
 
 # ------------------------------------------------------------------------------------------------ driver API
 
-CHECK = dict(P=check_P, LP=check_LP, F=check_F, BF=check_BF, S=check_S, COV=check_COV, PROJ=check_PROJ)
-CASES = dict(P=cases_P, LP=cases_LP, F=cases_F, BF=cases_BF, S=cases_S, COV=cases_COV, PROJ=cases_PROJ)
+CHECK = dict(P=check_P, LP=check_LP, F=check_F, BF=check_BF, S=check_S, SI=check_SI, COV=check_COV, PROJ=check_PROJ)
+CASES = dict(P=cases_P, LP=cases_LP, F=cases_F, BF=cases_BF, S=cases_S, SI=cases_SI, COV=cases_COV, PROJ=cases_PROJ)
 SAME_DIM = [c for c in U.CHAINS if len(set(U.CHAINS[c])) == 1]
 
 
@@ -517,7 +565,10 @@ def history_seeds(tier, seed):
         for L in ([3] if big else [4]) if quick else ([3, 4] if big else [3, 4, 5, 6]):
             out.append(dict(chain=ch, L=L, bc='finite', kind='full', seed=seed, cplx=bool(k % 2)))
             out.append(dict(chain=ch, L=L, bc='finite', kind='raw', seed=seed, cplx=not k % 2, mult=[1, 2, 3, 2], norm=1.7))
+            if L == 4:  # more virtual states than the Schmidt rank: canonical_form has to reduce the bond dimensions
+                out.append(dict(chain=ch, L=L, bc='finite', kind='raw', seed=seed, cplx=bool(k % 2), mult=[1, 3, 5, 3], norm=0.5))
         out.append(dict(chain=ch, L=3, bc='segment', kind='segment', seed=seed, cplx=bool(k % 2)))
+        out.append(dict(chain=ch, L=3, bc='segment', kind='segment_raw', seed=seed, cplx=not k % 2))
     out.append(dict(chain='shz', L=4, bc='finite', kind='raw', seed=seed, cplx=True, mult=[1, 2, 2, 2], norm=0.5, unbunched=True))
     inf = [('sh', 1), ('shz', 2), ('s1z', 1), ('shp', 3), ('fN', 2), ('mix0', 3)] if quick else \
         [('sh', 1), ('sh', 2), ('sh', 3), ('shz', 2), ('s1z', 1), ('s1z', 2), ('s1z', 3), ('shp', 1), ('shp', 3), ('fp', 2), ('fN', 2), ('b2N', 2),
@@ -526,14 +577,18 @@ def history_seeds(tier, seed):
         out.append(dict(chain=ch, L=L, bc='infinite', kind='raw', seed=seed, cplx=bool(k % 2), mult=[2, 1, 2][:max(L, 1)] if L > 1 else [3], norm=1.3,
                         window=3 if L < 3 else 2))
     out.append(dict(chain='shz', L=2, bc='infinite', kind='raw', seed=seed, cplx=False, mult=[2, 1], norm=1.0, unbunched=True))
+    out.append(dict(chain='sh', L=2, bc='infinite', kind='raw', seed=seed, cplx=True, mult=[2, 5], norm=0.5, window=3))  # rank deficient
     return out
 
 
 def units(tier, seed, label):
     quick = tier == 'quick'
     us = []
-    for sd in history_seeds(tier, seed):
-        us.append(('H', sd, 3, tier))
+    seeds = history_seeds(tier, seed)
+    for sd in seeds:
+        us.append(('H', sd, 8, tier, True))     # to the fixed point of the abstract state graph
+    for sd in [x for x in seeds if x['chain'] in ('shz', 's1z') and not x.get('unbunched')]:
+        us.append(('H', sd, 2 if quick else 3, tier, False))  # every history, no merging of states
     chains = list(U.CHAINS)
     for ch in chains:
         big = max(U.site(k).dim for k in U.CHAINS[ch]) > 2
@@ -572,6 +627,9 @@ def units(tier, seed, label):
             if skey in ('shp', 's1z') and L > (4 if quick else 5):
                 continue
             us.append(('S', skey, L, tier))
+    for skey in ('shz', 'sh'):
+        for L in (2, 3, 4):
+            us.append(('SI', skey, L, tier))
     for ch in ('shz', 's1z', 'sh', 'mixSz', 'shp') if not quick else ('shz', 's1z', 'mixSz'):
         for L in (2, 3, 4):
             us.append(('COV', ch, L, [1, 2], tier, seed))
@@ -588,7 +646,7 @@ def run_unit(unit):
     logging.disable(logging.CRITICAL)
     warnings.simplefilter('ignore')
     if unit[0] == 'H':
-        return H.bfs(unit[1], unit[2], unit[3])
+        return H.bfs(*unit[1:])
     part = unit[0]
     ev = nontriv = 0
     viol, outcomes = [], set()
